@@ -709,7 +709,7 @@ func clampField(f *F) {
 var c08Prop = pbt.Register(pbt.Prop[C08Case]{Name: "C08", Gen: genC08, Check: c08Check})
 
 func TestC08(t *testing.T) {
-	n := pbt.PerShard(pbt.Pick(16000, 240000))
+	n := pbt.PerShard(pbt.Pick(9600, 240000))
 	var inputs int64
 	rapidCheckN(t, n, func(rt *rapid.T) {
 		c := genC08(rt)
